@@ -101,6 +101,7 @@ macro_rules! kind_impl {
                 let over: Vec<usize> = vec![BUF * 8 - w + 1, BUF * 8 - w + 2, BUF * 8, BUF * 8 + 5];
                 rep.states += (offsets.len() * 3) as u64;
                 for &off in &offsets {
+                    watch_enter(0x0700_0000 + ((carrier as u64) << 8) + w as u64);
                     for bg in &bgs {
                         let mut base = [0u8; BUF];
                         for (i, b) in base.iter_mut().enumerate() {
